@@ -106,20 +106,33 @@ impl Sub for Spherical {
         let stop_noise = std::sync::atomic::AtomicBool::new(false);
         let noise_signatures = std::sync::atomic::AtomicU64::new(0);
         let extra_retries = std::sync::atomic::AtomicU64::new(0);
+        let noise_panic: std::sync::Mutex<Option<String>> = std::sync::Mutex::new(None);
+        // whatever happens below, the noise threads must be told to stop
+        struct StopOnDrop<'a>(&'a std::sync::atomic::AtomicBool);
+        impl Drop for StopOnDrop<'_> {
+            fn drop(&mut self) {
+                self.0.store(true, std::sync::atomic::Ordering::Relaxed);
+            }
+        }
         let sigs: Vec<Result<Vec<f64>, Fail>> = std::thread::scope(|noise_scope| {
             for t in 0..6 {
-                let (stop, made) = (&stop_noise, &noise_signatures);
+                let (stop, made, noise_panic) = (&stop_noise, &noise_signatures, &noise_panic);
                 let k = if t % 3 == 2 { &decoy } else { &other_variant };
                 noise_scope.spawn(move || {
                     let mut i = 0u64;
                     while !stop.load(std::sync::atomic::Ordering::Relaxed) {
-                        let _ = api::sign(&i.to_le_bytes(), &k.sk);
+                        if let Err(p) = crate::engine::no_panic(|| api::sign(&i.to_le_bytes(), &k.sk)) {
+                            *noise_panic.lock().unwrap() = Some(p);
+                            break;
+                        }
                         i += 1;
                     }
                     made.fetch_add(i, std::sync::atomic::Ordering::Relaxed);
                 });
             }
+            let _stop = StopOnDrop(&stop_noise);
             let out = par_map(count, 16, |j| {
+            crate::engine::no_panic(|| {
             let msg = (c.msg_base ^ mix(j as u64)).to_le_bytes().to_vec();
             let sig = SLOT.with(|slot| {
                 let mut slot = slot.borrow_mut();
@@ -157,11 +170,16 @@ impl Sub for Spherical {
                 return Err(Fail::new("sphere:norm-bound", format!("an emitted signature has squared norm {} > floor(beta^2) = {}", norm, p.bound)));
             }
             Ok(s1.iter().chain(s2.iter()).map(|&x| x as f64).collect())
+            })
+            .unwrap_or_else(|p| Err(Fail::new(format!("sphere:sign-panic:{}", crate::engine::panic_site(&p)), format!("signing message {} of the history panicked: {}", j, p))))
             });
             stop_noise.store(true, std::sync::atomic::Ordering::Relaxed);
             out
         });
         st.add("signatures_made_concurrently_by_other_keys", noise_signatures.load(std::sync::atomic::Ordering::Relaxed));
+        if let Some(p) = noise_panic.lock().unwrap().take() {
+            return Err(Fail::new(format!("sphere:sign-panic:{}", crate::engine::panic_site(&p)), format!("a thread signing with ANOTHER key while the history was made panicked: {}", p)));
+        }
         if c.restarts > 0 {
             // honest attempts fail about once in 10^4..10^6: more than that means forced bytes reached
             // the attempt that was meant to be honest
